@@ -70,7 +70,8 @@ TReplay ==
   /\ (ReplayNext \/ ReplayDone)
   /\ UNCHANGED l
 
-TDone == l > Len(Trace) /\ queue = <<>> /\ UNCHANGED tvars
+\* (the recording may end in the middle of an input: a timer can fire while the harness shuts down)
+TDone == l > Len(Trace) /\ UNCHANGED tvars
 
 TraceNext == TEffect \/ TInput \/ TCrash \/ TStop \/ TRecover \/ TReplay \/ TDone
 =============================================================================
